@@ -53,6 +53,9 @@ type G struct {
 	top                        *Frame
 	done                       bool
 	block                      string
+	psite                      string
+	vc                         []int // vector clock (race detector)
+	preempts                   int
 }
 
 type Program struct {
@@ -74,6 +77,7 @@ type Interp struct {
 	side         map[*Value]interface{} // sync object state keyed by address
 	atoms        int
 	atomTab      map[string]*Atom
+	atomList     []*Atom
 	Obs          []string
 	Cover        map[string]bool
 	FuncsEntered map[*ssa.Function]int
@@ -82,10 +86,22 @@ type Interp struct {
 	nameCnt      map[string]int
 	yieldNow     bool
 	PreemptBound int
+	HarnessName  string
+	Params       map[string]int
+	inputs       []namedInput
+	obs          []obsRec
+	schedTrace   []int
+	sigTags      []string
+	ixCache      map[*ssa.Function]*Intrinsic
+	Explore      bool
+	RaceDetect   bool
+	Unwind       int
+	StubsHit     map[string]int
+	initMode     bool
 }
 
 func NewInterp(prog *ssa.Program, ctx *smt.Ctx, sol *smt.Solver) *Interp {
-	return &Interp{Prog: prog, Ctx: ctx, Sol: sol, infos: map[*ssa.Function]*fnInfo{}, FuncsEntered: map[*ssa.Function]int{}}
+	return &Interp{Prog: prog, Ctx: ctx, Sol: sol, infos: map[*ssa.Function]*fnInfo{}, FuncsEntered: map[*ssa.Function]int{}, ixCache: map[*ssa.Function]*Intrinsic{}}
 }
 
 func (in *Interp) resetRun() {
@@ -94,10 +110,18 @@ func (in *Interp) resetRun() {
 	in.side = map[*Value]interface{}{}
 	in.atoms = 0
 	in.atomTab = map[string]*Atom{}
+	in.atomList = nil
 	in.Obs = nil
 	in.Cover = map[string]bool{}
 	in.ranks = nil
 	in.nameCnt = map[string]int{}
+	in.inputs = nil
+	in.obs = nil
+	in.schedTrace = nil
+	in.sigTags = nil
+	if in.StubsHit == nil {
+		in.StubsHit = map[string]int{}
+	}
 }
 
 func (in *Interp) info(fn *ssa.Function) *fnInfo {
@@ -228,6 +252,21 @@ func (in *Interp) callValue(g *G, fr *Frame, fnv Value, args []Value, dst ssa.Va
 			res, ok := ix.F(in, fr, args)
 			return res, true, ok
 		}
+		if in.initMode && !strings.HasPrefix(fnPkgPath(f.Fn), "berty.tech/go-ipfs-log") {
+			// package initialisers do not run external code: the result is poison (INCONCLUSIVE if ever used)
+			res := f.Fn.Signature.Results()
+			switch res.Len() {
+			case 0:
+				return Value{}, true, true
+			case 1:
+				return Value{K: KOpaque, R: poison("init:" + f.Fn.String())}, true, true
+			}
+			vs := make([]Value, res.Len())
+			for i := range vs {
+				vs[i] = Value{K: KOpaque, R: poison("init:" + f.Fn.String())}
+			}
+			return Value{K: KTuple, R: vs}, true, true
+		}
 		in.pushFrame(g, f.Fn, args, f.Env, dst)
 		return Value{}, false, true
 	case *Intrinsic:
@@ -279,6 +318,9 @@ func (in *Interp) goPanic(g *G, msg string) {
 }
 
 func (in *Interp) goPanicVal(g *G, v Value) {
+	if g.psite == "" {
+		g.psite = in.panicSite(g)
+	}
 	fr := g.top
 	fr.panicking = true
 	fr.panicVal = v
@@ -307,7 +349,7 @@ func (in *Interp) unwind(g *G) {
 		// pop frame, propagate panic to caller
 		g.top = fr.caller
 		if g.top == nil {
-			panic(goroutinePanic{g, fr.panicVal})
+			panic(goroutinePanic{g, fr.panicVal, g.psite})
 		}
 		g.top.panicking = true
 		g.top.panicVal = fr.panicVal
@@ -318,8 +360,9 @@ func (in *Interp) unwind(g *G) {
 }
 
 type goroutinePanic struct {
-	g *G
-	v Value
+	g    *G
+	v    Value
+	site string
 }
 
 func (in *Interp) recoverResult(fr *Frame) Value {
@@ -605,6 +648,28 @@ func (in *Interp) doCall(g *G, fr *Frame, call *ssa.CallCommon, dst *ssa.Call) {
 	}
 }
 
+// runInits executes the package initialiser of the harness package; it transitively
+// initialises every package of the module under test (init of other packages is a no-op,
+// their globals are zero values / opaque errors).
+func (in *Interp) runInits(g *G, fn *ssa.Function) {
+	if fn.Pkg == nil {
+		return
+	}
+	initFn := fn.Pkg.Func("init")
+	if initFn == nil {
+		return
+	}
+	in.initMode = true
+	saved := in.cur
+	in.cur = g
+	root := &Frame{}
+	g.top = root
+	in.CallSync(Value{K: KFunc, R: &Closure{Fn: initFn}}, nil)
+	g.top = nil
+	in.cur = saved
+	in.initMode = false
+}
+
 // ---- scheduler (seq mode) ----
 
 // Run executes fn (no args) as the main goroutine to completion (seq scheduler:
@@ -613,6 +678,7 @@ func (in *Interp) Run(fn *ssa.Function) {
 	main := &G{id: 0}
 	in.gs = []*G{main}
 	in.cur = main
+	in.runInits(main, fn)
 	in.pushFrame(main, fn, nil, nil, nil)
 	for !main.done {
 		progressed := false
@@ -671,5 +737,9 @@ func (in *Interp) onUncaughtPanic(gp goroutinePanic) {
 	if r == smt.Unsat {
 		return
 	}
-	in.Violations = append(in.Violations, Violation{Prop: "PANIC", Msg: msg, Model: m, Prefix: append([]Dec{}, in.P.taken...), Panic: true})
+	site := in.panicSite(gp.g)
+	if gp.site != "" {
+		site = gp.site
+	}
+	in.addViolation("PANIC", PanicKind(msg)+" @ "+site, m, true, msg)
 }
